@@ -7,6 +7,16 @@ HERE = os.path.dirname(os.path.abspath(__file__))
 
 # property -> (technique, level text, level note, design ref)
 CLAIMED = {
+    'C07': ('copy-mode effect freedom by constant specialisation (cut=False) of every get handler: interprocedural tree-mutation '
+            'summaries, path-sensitive constant propagation and branch pruning, alias-vs-element derivation; acquire/release '
+            'typestate for temporary normalisations; structural checks of the copy / cut entry points',
+            'Static: decides that with cut=False no get handler (53 functions, with all helpers they reach) contains a permanent '
+            'mutation of the tree it reads from, that every temporary normalisation of the source is restored on all normal paths '
+            'and cannot be left behind by a refused request, and that copy entry points pass the literal cut=False. Faithfulness '
+            'of the extracted piece and token conservation are value-level and not decided.',
+            'Trusts the pair table and the one reviewed copy-mode helper in sa/rules/c07.py / atomic.py; receiver roles come from '
+            'parameter derivation (self-rooted expressions), unknown receivers are not attributed to the source tree.',
+            'DESIGN.md §2 C07'),
     'C12': ('lock typestate of the modification context manager (with / manual protocol) and of the manager itself over CFGs; '
             'interprocedural validate-then-mutate analysis: tree-mutation summaries per parameter (fixpoint over the resolved '
             'call graph), path-sensitive constant propagation with disjunctive states and constant-specialised callees, '
@@ -98,7 +108,7 @@ NOT_APPLICABLE = {
            'conservation is value-level. Its two structural clauses are checked as R5.1 and R7.3.',
 }
 
-PLANNED = ['C01', 'C02', 'C04', 'C05', 'C06', 'C07', 'C10', 'C11', 'C15']
+PLANNED = ['C01', 'C02', 'C04', 'C05', 'C06', 'C10', 'C11', 'C15']
 
 
 def main():
